@@ -436,9 +436,9 @@ pub fn check() -> PropertyCheck {
             "a zero-member MPLS object is malformed: it must not crash, its content is not asserted",
         ],
         subs: vec![
-            Box::new(Pbt { name: "roundtrip", quick: 100_000, thorough: 10_000_000, strat: msg_strat, test: roundtrip_test, max_shrink: 5000 }),
-            Box::new(Pbt { name: "corruption", quick: 150_000, thorough: 15_000_000, strat: corrupt_strat, test: corrupt_test, max_shrink: 5000 }),
-            Box::new(Pbt { name: "e2e", quick: 20_000, thorough: 1_000_000, strat: e2e_strat, test: e2e_test, max_shrink: 3000 }),
+            Box::new(Pbt { name: "roundtrip", quick: 300_000, thorough: 10_000_000, strat: msg_strat, test: roundtrip_test, max_shrink: 5000 }),
+            Box::new(Pbt { name: "corruption", quick: 400_000, thorough: 15_000_000, strat: corrupt_strat, test: corrupt_test, max_shrink: 5000 }),
+            Box::new(Pbt { name: "e2e", quick: 60_000, thorough: 1_000_000, strat: e2e_strat, test: e2e_test, max_shrink: 3000 }),
         ],
     }
 }
